@@ -65,7 +65,7 @@ type params struct {
 
 func cubeN(tier string) uint32 {
 	if tier == "thorough" {
-		return 1000
+		return 2000
 	}
 	return 300
 }
